@@ -396,7 +396,8 @@ Heads(n) ==
 ViasFor(i, op, kind) == {v \in VIAS : v = "k" => (HasArg(ty, op.o) /\ Th(al[i].kind) = 0 /\ Th(kind) = 0 /\ kind # "K")}
 Tails(h) == UNION {{[h EXCEPT !.op = op, !.via = v] : v \in ViasFor(h.i, op, h.kind)} : op \in Ops(al[h.i].v)}
 
-\* seeded thinning: Keep(n) per mille of the heads, and of the tails of every kept "upd" head
+\* seeded thinning: Keep(n) per mille of the heads (applied twice to the quadratically many "upd2" heads), and of
+\* the tails of every kept "upd" head
 Mx(a, b) == (a * 251 + b) % 9973
 KindIdx == [G |-> 1, P |-> 2, L |-> 3, M |-> 4, B |-> 5, C |-> 6, EL |-> 7, EP |-> 8, EV |-> 9, EI |-> 10, EH |-> 11,
             ES |-> 12, K |-> 13, WL |-> 14, WM |-> 15]
@@ -411,7 +412,7 @@ OpCode(op) == IF op.o = "-" THEN 0 ELSE Mx(OpIdx[op.o], op.a + 3 * op.b)
 HeadCode(h) == Mx(Mx(Mx(Mx(ActCode(h.a), h.i), h.i2 + h.b), KindCode(h.kind)), XferCode(h.xfer))
 CCode(ch) == Mx(Mx(HeadCode(ch), ViaCode(ch.via)), OpCode(ch.op))
 Kept(cd, n) == Keep(n) >= 1000 \/ (Mx(Mx(code, cd), 4001) % 1000) < Keep(n)
-Offered(n) == LET hs == {h \in Heads(n) : Kept(HeadCode(h), n)} IN
+Offered(n) == LET hs == {h \in Heads(n) : Kept(HeadCode(h), n) /\ (h.a = "upd2" => Kept(Mx(HeadCode(h), 77), n))} IN
               {h \in hs : h.a # "upd"} \cup UNION {{t \in Tails(h) : Kept(CCode(t), n)} : h \in {g \in hs : g.a = "upd"}}
 
 -----------------------------------------------------------------------------
